@@ -85,8 +85,9 @@ struct token
 {
     int kind;
     unsigned ast_index;   // index into engine::token_exprs (valid if kind == FIN)
-    bool scientific;
+    bool scientific;     // floatfield == scientific
     int precision;
+    bool lossless;       // the requested format prints every value of the numeric type with enough digits to read it back
 };
 
 inline z3::expr var(std::string const& n);
@@ -181,12 +182,16 @@ public:
         return true;
     }
 
-    z3::check_result check(std::vector<z3::expr> const& extra, z3::model* m = nullptr)
+    // probe = true: an optional query whose "don't know" is harmless (not counted as an undecided obligation)
+    z3::check_result check(std::vector<z3::expr> const& extra, z3::model* m = nullptr, bool probe = false)
     {
         auto t0 = std::chrono::steady_clock::now();
         z3::solver s(ctx);   // fresh solver: one-shot (non-incremental) mode
         z3::params p(ctx);
         p.set("timeout", timeout_ms);
+        // a probe is bounded by z3's deterministic resource counter rather than by wall-clock time, so that a replayed
+        // prefix takes the same decisions whatever the load of the machine
+        if (probe) { p.set("timeout", 600000u); p.set("rlimit", 3000000u); }
         s.set(p);
         for (auto const& c : pc) s.add(c);
         for (auto const& c : extra) s.add(c);
@@ -204,7 +209,7 @@ public:
             r = z3::unknown;
         }
         ++queries;
-        if (r == z3::sat) ++q_sat; else if (r == z3::unsat) ++q_unsat; else ++q_unknown;
+        if (r == z3::sat) ++q_sat; else if (r == z3::unsat) ++q_unsat; else if (!probe) ++q_unknown;
         solver_s += std::chrono::duration<double>(std::chrono::steady_clock::now() - t0).count();
         return r;
     }
@@ -782,10 +787,7 @@ inline real sqrt(real const& a)
     for (auto const& kv : g.memo_sqrt)
     {
         z3::expr const& sj = g.memo[kv.second];
-        unsigned const saved = g.timeout_ms;
-        g.timeout_ms = 3000;
-        z3::check_result r = g.check({a.e != sj * sj});
-        g.timeout_ms = saved;
+        z3::check_result r = g.check({a.e != sj * sj}, nullptr, true);
         if (r == z3::unsat)
         {
             g.memo_sqrt[id] = kv.second;
@@ -908,8 +910,13 @@ inline std::ostream& operator<<(std::ostream& out, real const& a)
     token t;
     t.kind = a.k;
     t.ast_index = static_cast<unsigned>(g.token_exprs.size());
-    t.scientific = (out.flags() & std::ios_base::floatfield) == std::ios_base::scientific;
+    auto const ff = out.flags() & std::ios_base::floatfield;
+    t.scientific = ff == std::ios_base::scientific;
     t.precision = static_cast<int>(out.precision());
+    int const md10 = SYM_MAX_DIGITS10;
+    // scientific: 1 + precision significant digits; default (general) format: precision significant digits; hexfloat: exact
+    t.lossless = (t.scientific && t.precision >= md10 - 1) || (ff == 0 && t.precision >= md10) ||
+        (ff == (std::ios_base::scientific | std::ios_base::fixed));
     g.token_exprs.push_back(a.k == FIN ? a.e : real(0).e);
     g.tokens.push_back(t);
     out << '@' << (g.tokens.size() - 1);
